@@ -1452,6 +1452,12 @@ fn root_main(w: Arc<World>) {
                     sched.spawn_thread();
                 }
                 RootAct::Despawn => {
+                    // despawning joins the pool threads: no job may be blocked on something only the root opens later
+                    for g in 0..case.cfg.gates as usize {
+                        w.open_gate(g);
+                    }
+                    w.with(|i| i.root_stage = "before despawn: wait for quiescence".to_string());
+                    rt::wait_quiescent();
                     w.with(|i| i.root_stage = "despawn_threads_if_overloaded".to_string());
                     sched.despawn_threads_if_overloaded();
                     let (live, max) = (rt::live_named(POOL_THREAD_NAME), sched_max(&w));
@@ -1546,14 +1552,25 @@ fn root_main(w: Arc<World>) {
     for g in 0..case.cfg.gates as usize {
         w.open_gate(g);
     }
-    for s in 0..case.cfg.streams as usize {
-        let open = w.with(|i| i.streams[s].used && !i.streams[s].closed);
-        if open {
-            stream_event(&w, s, None, true);
+    loop {
+        // callers that were blocked until now may still create pipes: repeat until no stream is left open.
+        // (a pipe whose output stream was dropped gets no further input event: C16 is about exactly that)
+        let mut closed_any = false;
+        for s in 0..case.cfg.streams as usize {
+            let open = w.with(|i| i.streams[s].used && !i.streams[s].closed && !(i.streams[s].is_pipe && i.streams[s].out_dropped));
+            if open {
+                stream_event(&w, s, None, true);
+                closed_any = true;
+            }
+        }
+        w.with(|i| i.root_stage = "final: wait for quiescence".to_string());
+        rt::wait_quiescent();
+        let more = w.with(|i| i.streams.iter().any(|s| s.used && !s.closed && !(s.is_pipe && s.out_dropped)));
+        let _ = closed_any;
+        if !more {
+            break;
         }
     }
-    w.with(|i| i.root_stage = "final: wait for quiescence".to_string());
-    rt::wait_quiescent();
     oracle::final_quiescence(&w, &handles);
     // release what the root still holds; each last-owner drop must return and destroy the value
     let panicked: Vec<bool> = w.with(|i| i.objs.iter().map(|o| o.expect_panicked).collect());
